@@ -5,6 +5,7 @@ import (
 	"strings"
 
 	"github.com/goatcms/goatcore/varutil"
+	"github.com/goatcms/goatcore/varutil/goaterr"
 )
 
 // mkdirAll crete directories recursive
@@ -15,6 +16,12 @@ func mkdirAll(d *Dir, subPath string, filemode os.FileMode) (dir *Dir, err error
 
 func mkdirAllNodes(d *Dir, nodesPath []string, filemode os.FileMode) (dir *Dir, err error) {
 	for _, nodeName := range nodesPath {
+		if nodeName == "" || nodeName == currentDir {
+			continue
+		}
+		if nodeName == parentDir {
+			return nil, goaterr.Errorf("Path %v refers to a parent directory", nodesPath)
+		}
 		if d, err = d.mkdir(nodeName, filemode); err != nil {
 			return nil, err
 		}
